@@ -639,9 +639,12 @@ pub fn run(args: Args) {
     let mut items: Vec<Box<dyn Fn(&Ctx) + Send + Sync>> = Vec::new();
     let (depth, max_cap, max_fills) = match args.tier {
         Tier::Quick => (3, 3, 2),
-        Tier::Thorough => (3, 5, 3),
+        Tier::Thorough => (4, 6, 3),
     };
-    all_roots::<S<S<S<Z>>>>(&mut items, max_cap);
+    match args.tier {
+        Tier::Quick => all_roots::<S<S<S<Z>>>>(&mut items, max_cap),
+        Tier::Thorough => all_roots::<S<S<S<S<Z>>>>>(&mut items, max_cap),
+    }
     rep.extra("bounds", json!({"view_depth": depth, "max_capacity": max_cap, "max_fills_per_view": max_fills}));
     rep.rule("every (root kind, len<=cap<=max_capacity) x every view tree of slice(a..)/slice(a..e)/uninit() up to view_depth with all in-range parameters x every fill sequence up to max_fills_per_view of advance_to(k)/advance(k) with all admissible k; vectored containers likewise; a state = one execution prefix, distinct outcomes = (view shape, fills, final root length) classes");
     {
